@@ -2,7 +2,7 @@ from common import Ctx, RULES, standard_unit_leg
 from legs import run_classified_leg
 
 PID = "C16"
-COQ_FILES = ["Model/Base.v", "Model/Mem.v", "Model/Call.v", "Proofs/CallProofs.v", "Properties/C16.v"]
+COQ_FILES = ["Model/Base.v", "Model/Mem.v", "Model/Call.v", "Proofs/CallProofs.v", "Gen/Call.v", "Ties/CallTie.v", "Properties/C16.v"]
 RULES[PID] = ("c16-marg (unit): liter_to_arg_bin_repr / CallArgs::new / prepare_registers through add-only hooks; the cross product of 77 boundary "
               "literals (ints at +-2^k+-{0,1,2} for k in 7,8,15,16,31,32,63, i64::MIN/MAX, addresses, bools, float/string/enum/array/assoc) x 111 "
               "parameter types (9 encodings incl. none x byte sizes none,0..9,16; pointer; struct; C enum), subsampled by a seeded stride in the quick "
